@@ -577,4 +577,92 @@ theorem leAll_replicate {l : List Nat} {m : Nat} (h : ∀ x ∈ l, x ≤ m) : Le
     simp only [List.length_cons, List.replicate_succ, LeAll]
     exact ⟨h a (by simp), ih (fun x hx => h x (by simp [hx]))⟩
 
+/-! ### concatenate -/
+
+theorem concatAt_spec : ∀ {k : Nat} {a b t : Shape}, concatAt k a b = some t →
+    t.length = a.length ∧ t.length = b.length ∧ prod t = prod a + prod b
+  | 0, [], [], t, h => by simp [concatAt] at h
+  | _ + 1, [], [], t, h => by simp [concatAt] at h
+  | 0, x :: as, y :: bs, t, h => by
+      simp only [concatAt] at h
+      split at h
+      · rename_i heq
+        simp only [Option.some.injEq] at h; subst h
+        have : as = bs := by simpa using heq
+        subst this
+        simp [prod, Nat.add_mul]
+      · simp at h
+  | k + 1, x :: as, y :: bs, t, h => by
+      simp only [concatAt] at h
+      split at h
+      · rename_i heq
+        have : x = y := by simpa using heq
+        subst this
+        simp only [Option.map_eq_some_iff] at h
+        obtain ⟨r, hr, rfl⟩ := h
+        obtain ⟨h1, h2, h3⟩ := concatAt_spec hr
+        simp [prod, h1, h2, h3, Nat.mul_add]
+        omega
+      · simp at h
+  | _, [], _ :: _, _, h => by simp [concatAt] at h
+  | _, _ :: _, [], _, h => by simp [concatAt] at h
+
+theorem concatAt_leAll : ∀ {k : Nat} {a va b vb t r : Shape}, LeAll a va → LeAll b vb →
+    concatAt k a b = some t → concatAt k va vb = some r → LeAll t r
+  | 0, [], [], [], [], t, r, _, _, ht, _ => by simp [concatAt] at ht
+  | _ + 1, [], [], [], [], t, r, _, _, ht, _ => by simp [concatAt] at ht
+  | 0, x :: as, y :: vas, u :: bs, v :: vbs, t, r, ha, hb, ht, hr => by
+      simp only [concatAt] at ht hr
+      split at ht <;> split at hr <;> simp at ht hr
+      subst ht hr
+      exact ⟨Nat.add_le_add ha.1 hb.1, ha.2⟩
+  | k + 1, x :: as, y :: vas, u :: bs, v :: vbs, t, r, ha, hb, ht, hr => by
+      simp only [concatAt] at ht hr
+      split at ht <;> split at hr <;> simp at ht hr
+      obtain ⟨t', ht', rfl⟩ := ht
+      obtain ⟨r', hr', rfl⟩ := hr
+      exact ⟨ha.1, concatAt_leAll ha.2 hb.2 ht' hr'⟩
+  | _, [], _ :: _, _, _, _, _, h, _, _, _ => by simp [LeAll] at h
+  | _, _ :: _, [], _, _, _, _, h, _, _, _ => by simp [LeAll] at h
+  | _, _, _, [], _ :: _, _, _, _, h, _, _ => by simp [LeAll] at h
+  | _, _, _, _ :: _, [], _, _, _, h, _, _ => by simp [LeAll] at h
+  | _, [], [], _ :: _, _ :: _, _, _, _, _, ht, _ => by simp [concatAt] at ht
+  | _, _ :: _, _ :: _, [], [], _, _, _, _, ht, _ => by simp [concatAt] at ht
+
+theorem refConcat_spec {axis : Option Nat} {a b t : Shape} (h : refConcat axis a b = some t) :
+    prod t = prod a + prod b ∧ (axis = none → t.length = 1) ∧ (axis ≠ none → t.length = a.length ∧ t.length = b.length) := by
+  cases axis with
+  | none => simp only [refConcat, Option.some.injEq] at h; subst h; simp [prod]
+  | some k =>
+    simp only [refConcat] at h
+    split at h
+    · obtain ⟨h1, h2, h3⟩ := concatAt_spec h
+      exact ⟨h3, by simp, fun _ => ⟨h1, h2⟩⟩
+    · simp at h
+
+theorem refConcat_leAll {axis : Option Nat} {a va b vb t r : Shape} (ha : LeAll a va) (hb : LeAll b vb)
+    (ht : refConcat axis a b = some t) (hr : refConcat axis va vb = some r) : LeAll t r := by
+  cases axis with
+  | none =>
+    simp only [refConcat, Option.some.injEq] at ht hr; subst ht hr
+    exact ⟨Nat.add_le_add ha.prod_le hb.prod_le, trivial⟩
+  | some k =>
+    simp only [refConcat] at ht hr
+    split at ht
+    · split at hr
+      · exact concatAt_leAll ha hb ht hr
+      · simp at hr
+    · simp at ht
+
+theorem leAll_bump : ∀ {t r : List Nat}, LeAll t r → LeAll t (r.map (fun x => if x == 0 then 1 else x))
+  | [], [], _ => trivial
+  | x :: ts, y :: rs, h => by
+      refine ⟨?_, leAll_bump h.2⟩
+      have := h.1
+      by_cases hy : y = 0
+      · subst hy; simp; omega
+      · simpa [hy] using this
+  | [], _ :: _, h => by simp [LeAll] at h
+  | _ :: _, [], h => by simp [LeAll] at h
+
 end NmVerif.Static
